@@ -3,6 +3,7 @@ package sender
 // C19 / C13: resolution of a stored receiver at dispatch, for every stored value.
 
 import (
+	"strings"
 	"encoding/json"
 
 	"github.com/prometheus/client_golang/prometheus"
@@ -127,6 +128,28 @@ func VH_SN_Resolve() {
 	isPoll := vx.UrlValid(name) && scheme == "poll"
 	vx.Assert(toHttp == isHttp && toPoll == isPoll, "C19:otherwise-resolved-by-url-scheme")
 	vx.Assert(failed == (!isHttp && !isPoll), "C19:unknown-address-is-a-failed-hand-off")
+	// the receiver data handed to the transport is exactly what the address says
+	if toPoll {
+		vx.Reach("poll-address")
+		var m map[string]string
+		err := json.Unmarshal(pollP.msgs[0].Data, &m)
+		vx.Assert(err == nil && m != nil, "C19:poll-address-data-decodes")
+		if m != nil {
+			id := strings.TrimPrefix(vx.UrlPath(name), "/")
+			vx.Assert(vx.And(vx.MapHas(m, "group"), vx.MapGet(m, "group") == vx.UrlHost(name)), "C19:poll-address-group-is-the-host")
+			vx.Assert(vx.MapHas(m, "id") == (id != ""), "C19:poll-address-id-present-iff-path")
+			vx.Assert(vx.Implies(id != "", vx.MapGet(m, "id") == id), "C19:poll-address-id-is-the-path")
+		}
+	}
+	if toHttp {
+		vx.Reach("http-address")
+		var m map[string]string
+		err := json.Unmarshal(httpP.msgs[0].Data, &m)
+		vx.Assert(err == nil && m != nil, "C19:http-address-data-decodes")
+		if m != nil {
+			vx.Assert(vx.And(vx.MapHas(m, "url"), vx.MapGet(m, "url") == vx.UrlString(name)), "C19:http-address-url-is-the-address")
+		}
+	}
 }
 
 func vhB(b bool) int {
